@@ -87,11 +87,11 @@ Theorem ext_step_layout : forall pre pht A c B post v rest sbl fr,
   WF ph pre pht (A ++ c :: B) post -> donors_ok fr (lay pre pht (A ++ c :: B) post) (v :: rest) ->
   SblInv pre pht sbl (A ++ c :: B) ->
   let cs := A ++ c :: B in
-  let cs1 := ins_res A (del_tail A [c] B) fr [v] in
-  let fr1 := ins_fr A (del_tail A [c] B) fr [v] in
+  let cs1 := ins_res A (del_tail A [c] B post) fr [v] in
+  let fr1 := ins_fr A (del_tail A [c] B post) fr [v] in
   del_tokens ph (lay pre pht cs post) (map item_of cs) (zlen A) (zlen A + 1)
-    = (lay pre pht (A ++ del_tail A [c] B) post, Ok tt) /\
-  insert_tokens ph seps sepsb (lay pre pht (A ++ del_tail A [c] B) post) (map item_of cs) (zlen A) [v]
+    = (lay pre pht (A ++ del_tail A [c] B post) post, Ok tt) /\
+  insert_tokens ph seps sepsb (lay pre pht (A ++ del_tail A [c] B post) post) (map item_of cs) (zlen A) [v]
       (zlen (map item_of cs) - 1) sbl fr = (lay pre pht cs1 post, [emptied v], fr1, Ok tt) /\
   list_set_int (map item_of cs) (zlen A) (node_item v) = Ok (map item_of cs1) /\
   WF ph pre pht cs1 post /\ zlen cs1 = zlen cs /\ Edit cs cs1 [c] [d_store v] /\
@@ -106,7 +106,7 @@ Proof.
   destruct (del_res_wf ph pre pht A [c] B post Hwf) as [Hwf1 Hsub]. rewrite del_res_tail in Hwf1, Hsub. cbn [app] in Hsub.
   (* the single donor *)
   destruct Hdon as (Hvs & Hdb & Hvb & Hnn).
-  assert (Hdon1 : donors_ok fr (lay pre pht (A ++ del_tail A [c] B) post) [v]).
+  assert (Hdon1 : donors_ok fr (lay pre pht (A ++ del_tail A [c] B post) post) [v]).
   { repeat split.
     - constructor; [exact (Forall_inv Hvs)|constructor].
     - intros x Hx. apply Hdb. now apply Hsub.
@@ -114,18 +114,18 @@ Proof.
     - cbn [dids flat_map] in *. rewrite app_nil_r. apply nodup_app_intro; [apply Hwf1| |].
       + eapply nodup_app_l. eapply nodup_app_rr. exact Hnn.
       + intros x Hx Hin. eapply nodup_app_disj; [exact Hnn|apply Hsub; exact Hx|apply in_or_app; now left]. }
-  assert (Hsbl : A = [] -> forall b0 B', del_tail A [c] B = b0 :: B' ->
-           sbl = Some (tid (last (pre ++ pht :: c_gap b0) dft)) \/ (sbl = None /\ [c] ++ B = del_tail A [c] B)).
+  assert (Hsbl : A = [] -> forall b0 B', del_tail A [c] B post = b0 :: B' ->
+           sbl = Some (tid (last (pre ++ pht :: c_gap b0) dft)) \/ (sbl = None /\ [c] ++ B = del_tail A [c] B post)).
   { intros -> b0 B' E. left. destruct B as [|b1 B1]; [discriminate|]. cbn [del_tail] in E. inversion E; subst b0 B'.
     cbn [c_gap].
     assert (H2 : 2 <= zlen ([] ++ c :: b1 :: B1)) by (cbn [app]; rewrite !zlen_cons; pose proof (zlen_nonneg B1); lia).
     destruct (Hinv H2) as (c0 & rst & E0 & Es). cbn [app] in E0. injection E0 as <- <-. exact Es. }
-  destruct (ins_layout ph seps sepsb Hseps Hsepsb pre pht A (del_tail A [c] B) post (map item_of (A ++ ([c] ++ B))) ([c] ++ B) [v] sbl fr
+  destruct (ins_layout ph seps sepsb Hseps Hsepsb pre pht A (del_tail A [c] B post) post (map item_of (A ++ ([c] ++ B))) ([c] ++ B) [v] sbl fr
               Hwf1 eq_refl Hsbl Hdon1) as (Hi & Hwf' & Hit).
   cbn [app] in Hi. rewrite del_tail_items in Hit.
-  assert (Hlen : zlen (map item_of (A ++ c :: B)) - 1 = zlen (A ++ del_tail A [c] B)).
+  assert (Hlen : zlen (map item_of (A ++ c :: B)) - 1 = zlen (A ++ del_tail A [c] B post)).
   { rewrite zlen_map, !zlen_app, zlen_cons, del_tail_len. lia. }
-  assert (Hl1 : zlen (ins_res A (del_tail A [c] B) fr [v]) = zlen (A ++ c :: B)).
+  assert (Hl1 : zlen (ins_res A (del_tail A [c] B post) fr [v]) = zlen (A ++ c :: B)).
   { rewrite ins_res_len1, del_tail_len, zlen_app, zlen_cons. lia. }
   split; [exact Hdel|]. split; [rewrite Hlen; exact Hi|].
   split.
@@ -133,15 +133,15 @@ Proof.
     now rewrite list_set_int_mid. }
   split; [exact Hwf'|]. split; [exact Hl1|].
   split.
-  { destruct (ins_res_shape seps sepsb A (del_tail A [c] B) fr [v]) as (Nc & B' & E & E1 & E2).
+  { destruct (ins_res_shape seps sepsb A (del_tail A [c] B post) fr [v]) as (Nc & B' & E & E1 & E2).
     exists A, B, Nc, B'. split; [reflexivity|]. split; [exact E|]. split; [exact E1|].
     eapply tail_eq_trans; [apply del_tail_tail|exact E2]. }
   split.
   { intro HS. apply Sep_ins. rewrite <- del_res_tail. apply (Sep_del seps sepsb A [c] B). exact HS. }
   split.
   - (* the remaining donors are still new to the document *)
-    assert (Htok : forall x, In x (ids (lay pre pht (ins_res A (del_tail A [c] B) fr [v]) post)) ->
-              In x (ids (lay pre pht (A ++ c :: B) post)) \/ In x (ids (d_store v)) \/ fr <= x < ins_fr A (del_tail A [c] B) fr [v]).
+    assert (Htok : forall x, In x (ids (lay pre pht (ins_res A (del_tail A [c] B post) fr [v]) post)) ->
+              In x (ids (lay pre pht (A ++ c :: B) post)) \/ In x (ids (d_store v)) \/ fr <= x < ins_fr A (del_tail A [c] B post) fr [v]).
     { intros x Hx. unfold ids in Hx. apply in_map_iff in Hx. destruct Hx as (t & <- & Ht).
       apply in_lay in Ht. destruct Ht as [Ht|[Ht|[Ht|Ht]]].
       - left. unfold ids. apply in_map. apply in_lay. now left.
@@ -151,7 +151,7 @@ Proof.
         + right. left. unfold ids. now apply in_map.
         + right. now right.
       - left. unfold ids. apply in_map. apply in_lay. right. right. now right. }
-    pose proof (ins_fr_ge A (del_tail A [c] B) fr v) as Hge.
+    pose proof (ins_fr_ge A (del_tail A [c] B post) fr v) as Hge.
     cbn [dids flat_map] in Hvb, Hnn.
     repeat split.
     + exact (Forall_inv_tail Hvs).
